@@ -258,7 +258,7 @@ def make_renamed_namedtuple(timeout):
 
     def body(a: int, b: int, c: int):
         S = _ser()
-        x = O.Row(a, b, c)
+        x = O.Row(a, a + 1, a + 2)  # pairwise distinct values: a field paired with a neighbour's value is visible
         ok, it = attempt(lambda: list(S.iteritems(x)))
         ok2, vs = attempt(lambda: list(S.itervalues(x)))
         reached()
@@ -268,7 +268,7 @@ def make_renamed_namedtuple(timeout):
         if not {"id", "name"} <= set(names) or any(n not in x._fields for n in names):
             return ("items_wrong", "namedtuple_renamed_field", _d(x, it))
         for k, v in it:
-            if v is not getattr(x, k):
+            if v != getattr(x, k):
                 return ("field_paired_with_another_fields_value", "namedtuple_renamed_field", _d(x, it))
         if not _same_list(vs, [v for _, v in it]):
             return ("values_wrong", "namedtuple_renamed_field", _d(x, it, vs))
